@@ -131,7 +131,34 @@ class Ob(object):
         if r == z3.sat:
             m = small_model(self.ex.pc, [z3.Not(cond)] + gf) or m
             return self._add(name, kind, 'failed', {'model': m, 'cond': str(z3.simplify(cond))[:300]})
-        return self._add(name, kind, 'undecided', {'reason': 'solver unknown', 'cond': str(cond)[:300]})
+        # z3 `unknown`: (1) the goal with the facts that share symbols with it (unsat there is unsat of the whole set),
+        # (2) cvc5 on the whole query; a cvc5 model is believed only after z3 confirms it with the integer constants fixed
+        if _prove_relevant(self.ex, cond, gf):
+            return self._add(name, kind, 'discharged')
+        # quantified facts are dropped for cvc5 (fewer hypotheses: `unsat` stays sound, `sat` is confirmed by z3 on the full set)
+        facts = [f for f in list(self.ex.pc.facts) + gf if not _has_quantifier(f)] + [z3.Not(cond)]
+        if True:
+            r2, env = P.second_opinion(facts)
+            if r2 == 'unsat':
+                return self._add(name, kind, 'discharged')
+            if r2 == 'sat' and env:
+                eqs = []
+                for c in _constants(facts):
+                    val_ = env.get(c.decl().name())
+                    if val_ is not None:
+                        eqs.append(c == (z3.IntVal(int(val_)) if c.sort() == z3.IntSort() else z3.RealVal(str(val_))))
+                r3, m3 = self.ex.pc.model(z3.Not(cond), *(gf + eqs))
+                if r3 == z3.sat:
+                    return self._add(name, kind, 'failed', {'model': m3, 'cond': str(z3.simplify(cond))[:300], 'solver': 'cvc5 model confirmed by z3'})
+                # z3 cannot confirm (quantified ghost axioms): confirm on the quantifier-free facts; the verdict then needs the replay
+                sq = z3.Solver()
+                sq.set('timeout', 10000)
+                for f_ in facts + eqs:
+                    sq.add(f_)
+                if sq.check() == z3.sat:
+                    return self._add(name, kind, 'failed', {'model': sq.model(), 'cond': str(z3.simplify(cond))[:300], 'unconfirmed_model': True,
+                                                            'solver': 'cvc5 model on the quantifier-free facts (quantified ghost axioms not re-checked): believed only if the replay reproduces it'})
+        return self._add(name, kind, 'undecided', {'reason': 'solver unknown (z3 and cvc5)', 'cond': str(cond)[:300]})
 
     def decide_under(self, cond, hyps=(), timeout_ms=8000):
         """pc /\ hyps |= cond, tried on growing fact sets (cond alone, facts sharing symbols with it, the whole path condition):
@@ -268,6 +295,24 @@ def _prove_relevant(ex, cond, ghost_facts, depth=3, timeout_ms=8000):
     P.STATS['queries'] += 1
     P.STATS['solver_s'] += time.time() - t
     return r == z3.unsat
+
+
+def _constants(facts):
+    """uninterpreted Int / Real constants occurring in the facts"""
+    seen, out = set(), {}
+    stack = list(facts)
+    while stack:
+        x = stack.pop()
+        i = x.get_id()
+        if i in seen:
+            continue
+        seen.add(i)
+        if z3.is_quantifier(x):
+            continue
+        if z3.is_const(x) and x.decl().kind() == z3.Z3_OP_UNINTERPRETED and x.sort() in (z3.IntSort(), z3.RealSort()):
+            out[x.decl().name()] = x
+        stack.extend(x.children())
+    return list(out.values())
 
 
 def _has_quantifier(e):
